@@ -1,20 +1,25 @@
 #!/bin/bash
 # usage: seedtest.sh <Cxx> [check ids...]   — verifies a seeded mutant and runs checks against it
-# needs /tmp/seed_<Cxx>/_seed/{patch.diff,meta.json,demo/}
+# needs /verif/seeded/<Cxx>/{patch.diff,meta.json,demo/}
 set -u
 P=$1; shift
 CHECKS=${@:-$P}
 export GOFLAGS=-mod=mod GOPROXY=off GOSUMDB=off GOTOOLCHAIN=local
 S=/tmp/seed_$P/_seed
 D=/verif/seeded/$P
-mkdir -p $D; cp -r $S/patch.diff $S/meta.json $D/ 2>/dev/null; rm -rf $D/demo; cp -r $S/demo $D/demo 2>/dev/null
+# self-contained: everything comes from /verif/seeded/<Cxx> (patch.diff, meta.json with demo_files, demo/)
 W=/tmp/mutwork_$P
 git -C /repo worktree remove --force $W >/dev/null 2>&1; git -C /repo worktree add -q --detach $W HEAD
 cd $W
 if ! git apply --check $D/patch.diff 2>/dev/null; then echo "PATCH-DOES-NOT-APPLY to current HEAD"; git apply --3way $D/patch.diff 2>&1 | tail -2; else git apply $D/patch.diff; fi
 git diff --stat | tail -1
 # demo files: copy every *_test.go of the demo dir to the path recorded in meta.json demo_command if found in seed worktree
-for f in $(cd /tmp/seed_$P && git status --porcelain | grep '^??' | awk '{print $2}' | grep -v '^_seed' ); do mkdir -p $(dirname $W/$f); cp -r /tmp/seed_$P/$f $W/$f; done
+python3 - "$D" "$W" <<'PY'
+import json,sys,os,shutil
+D,W=sys.argv[1:3]
+for base,dst in json.load(open(D+'/meta.json')).get('demo_files',{}).items():
+    os.makedirs(os.path.dirname(os.path.join(W,dst)),exist_ok=True); shutil.copy(os.path.join(D,'demo',base),os.path.join(W,dst))
+PY
 echo "untracked demo files: $(git status --porcelain | grep '^??' | awk '{print $2}' | tr '\n' ' ')"
 CMD=$(python3 -c "import json;print(json.load(open('$D/meta.json'))['demo_command'])" | sed "s#/tmp/seed_$P#$W#g" | sed 's/&amp;/\&/g' | sed 's/   (.*$//' )
 echo "demo cmd: $CMD"
